@@ -99,7 +99,7 @@ type c08Obs struct {
 }
 
 const (
-	c08OpTimeout    = 4 * time.Second
+	c08OpTimeout    = 3 * time.Second
 	c08ChildTimeout = 40 * time.Second
 )
 
@@ -915,6 +915,44 @@ func c08EqII(a, b [][]int) bool {
 // c08Label names the first clause of the property that the observations violate ("pass" if none).
 func c08Label(in *c08In, full, ref []c08Obs) string {
 	env := c08EnvOf(in)
+	// how each htpasswd file was last met by a FAILED attempt (the state the cache may remember)
+	touch := map[int]string{}
+	touched := func(c *c08Cfg) {
+		if c.Parse != "" {
+			return
+		}
+		for _, e := range c.Effs {
+			if e.K == "bad" {
+				return
+			}
+			if e.K == "auth" {
+				h := env[e.F]
+				switch {
+				case !h.Present:
+					touch[e.F] = "after-missing"
+				case h.Bad:
+					touch[e.F] = "after-malformed"
+				case !c08HtOK(h, e.U):
+					touch[e.F] = "after-nouser"
+				default:
+					touch[e.F] = "after-read"
+				}
+				if !c08HtOK(h, e.U) {
+					return
+				}
+			}
+		}
+	}
+	cause := func(c *c08Cfg) string {
+		for _, e := range c.Effs {
+			if e.K == "auth" {
+				if t, ok := touch[e.F]; ok {
+					return t
+				}
+			}
+		}
+		return "untouched"
+	}
 	if len(full) == 0 {
 		return "no-observation"
 	}
@@ -970,6 +1008,9 @@ func c08Label(in *c08In, full, ref []c08Obs) string {
 			rf := &ref[i+1]
 			switch {
 			case o.Res != rf.Res:
+				if ec := c08ErrClass(o); strings.HasPrefix(ec, "auth") {
+					return "asif:res:" + ec + ":" + cause(op.Cfg)
+				}
 				return "asif:res:" + c08ErrClass(o)
 			case (mode == "load" || mode == "validate") && o.Res != 0:
 				return "valid-fails:" + mode + ":" + c08ErrClass(o)
@@ -984,12 +1025,15 @@ func c08Label(in *c08In, full, ref []c08Obs) string {
 			case !c08EqII(o.Sites, rf.Sites):
 				return "asif:sites"
 			case !c08EqII(o.Auth, rf.Auth):
-				return "asif:auth"
+				return "asif:auth:" + cause(op.Cfg)
 			case o.Roll != rf.Roll:
 				return "asif:roll"
 			}
 		} else if o.Res == 0 {
 			return "invalid-accepted:" + mode + ":" + stage
+		}
+		if o.Res != 0 {
+			touched(op.Cfg)
 		}
 	}
 	return "pass"
